@@ -144,13 +144,24 @@ def r20_2(prog: Program, rep: Report, cls):
         vis = [tm for kind, tm in visited_terms(p) if kind == "visit"]
         seqs = [tm[1] for tm in vis if tm[0] == "elem"]
         for sq in seqs:
-            inner = sq
-            if inner[0] == "call" and T.refname(inner[1]) == "collections.deque" and inner[2]:
-                inner = inner[2][0]
-            if inner[0] not in ("list", "tuple"):
+            def seq_items(x):
+                """Elements, in iteration order, of a locally built sequence expression."""
+                if x[0] in ("list", "tuple"):
+                    return None if any(y[0] == "star" for y in x[1]) else list(x[1])
+                if x[0] == "call" and T.refname(x[1]) in ("collections.deque", "builtins.list", "builtins.tuple", "builtins.iter") and len(x[2]) == 1:
+                    return seq_items(x[2][0])
+                if x[0] == "call" and T.refname(x[1]) == "builtins.reversed" and len(x[2]) == 1:
+                    inner_ = seq_items(x[2][0])
+                    return None if inner_ is None else inner_[::-1]
+                if x[0] == "sub" and x[2] == ("slice", None, None, ("const", -1)):
+                    inner_ = seq_items(x[1])
+                    return None if inner_ is None else inner_[::-1]
+                return None
+
+            items = seq_items(sq)
+            if items is None:
                 ok_order = False
                 continue
-            items = list(inner[1])
             looped = any(e[0] == "while" and e[2] == 1 for e in p.events)
             L, R = ("attr", NODE, "left"), ("attr", NODE, "right")
             want = [("attr", L, "left"), ("attr", L, "right"), R] if looped else [L, R]
@@ -179,7 +190,7 @@ def r20_2(prog: Program, rep: Report, cls):
 
 def r20_3(prog: Program, rep: Report):
     mod = prog.module(MOD)
-    tm = P.module_term(prog, mod, "_GENERICS")
+    tm = T.fold_consts(P.module_term(prog, mod, "_GENERICS"))
     loc = f"{mod.relpath}:{mod.assign_nodes['_GENERICS'].lineno}"
     if tm[0] != "dict":
         raise AnalysisError("_GENERICS is not a dict display")
@@ -224,7 +235,12 @@ def r20_3(prog: Program, rep: Report):
             if r == NODE:
                 continue
             names = [s for s in T.walk(r) if T.is_call_to(s, "ast.Name")]
-            if not names or dict(names[0][3]).get("id") != ("sub", G, ident):
+            got = dict(names[0][3]).get("id") if names else None
+            looked = [("call", ("attr", G, "get"), (ident,), ()), ("call", ("attr", G, "get"), (ident, ("const", None)), ())]
+            if got in looked:
+                # `v = _GENERICS.get(node.id)` used only where `v is None` failed (the values are non-empty strings)
+                member = [pol for g, pol in p.guards() if (g == ("cmp", "is", got, ("const", None)) and not pol) or (g == got and pol)]
+            elif got != ("sub", G, ident):
                 good = False
             if not member:
                 good = False
